@@ -58,6 +58,10 @@ class FreshWorld(World):
     @classmethod
     def gen_config(cls, rng, tier, faults):
         lib = meshlib.library()
+        if rng.random() < 0.1:
+            from .fresh_beam import BeamFresh
+
+            return {"beam": BeamFresh.gen_beam_config(rng), "nops": int(rng.integers(8, 26)), "faults": False}
         three_d = rng.random() < (0.15 if tier == "quick" else 0.25)
         dim = 3 if three_d else 2
         maxNn = 40 if tier == "quick" else 80
@@ -96,6 +100,22 @@ class FreshWorld(World):
         self.E = __import__("EasyFEA")
         self.clock = seams.ClockSeam(ctx, self.E)
         self.solver = seams.SolverSeam(ctx, Solvers)
+        self.beam = None
+        if "beam" in cfg:
+            from .fresh_beam import BeamFresh
+
+            try:
+                self.beam = BeamFresh(cfg, ctx)
+            except BaseException:
+                self.close()
+                raise
+            # the frame actor has its own operations and reference: delegate
+            self.gen_op = self.beam.gen_op
+            self.apply = self.beam.apply
+            self.observe = self.beam.observe
+            self.abstract_state = self.beam.abstract_state
+            self.finish = self.beam.finish
+            return
         lib = meshlib.library()
         self.dim = cfg["dim"]
         with ctx.sut():
